@@ -2,8 +2,14 @@
 
 API
 ---
-`gen_ref_programs(seed, n, depth=4, layout="mixed", invalid_rate=0.0) -> list[dict]`
-    deterministic in `seed`; every case is
+`gen_ref_programs(seed, n, depth=4, layout="mixed", invalid_rate=0.0, p_red=0.05, p_trail=0.02) -> list[dict]`
+    deterministic in `seed` (program i only depends on (seed, i)); 1..8 top-level statements, bodies
+    nested up to `depth`; layout "plain" (single blanks, deterministic), "random" (admissible separators
+    of gen_lexemes: blanks of all kinds, nested block comments, line comments, or nothing where two
+    lexemes do not fuse) or "mixed"; `p_red` = probability of redundant parentheses per expression
+    node; `p_trail` = probability of a trailing comma per list (the official grammar admits one in
+    every list; recorded as entry["trailing_commas"]); `invalid_rate` = share of programs with an
+    injected stray `)` ("valid": False, `stmts` = the statements before the injection).  Every case is
         {"text": str, "stmts": [entry...], "valid": bool}
     entry = {"kind": <CST node kind of the statement as the real grammar names it; an EXPR_STMT carries
                       the kind of its expression child: "EXPR_STMT(GATE_CALL_EXPR)">,
@@ -74,7 +80,21 @@ gate_empty_param_parens      `gate g() q { }`  "expected one or more parameters"
 annotation_single_stmt_body  `if (c) @a b\\n h q;`  the annotation alone becomes the body.
 return_cast_value            `def f() { return int(x); }`  `return_expr` only looks at EXPR_FIRST, which has
                                             no type keyword: the value is not parsed ("Expecting semicolon").
-(see the report of the self-check for further ones found by the residual analysis)
+stmt_starts_with_sized_cast  `int[8](x) + 1;`  a statement starting with a type that has a designator goes
+                                            through `classical_declaration_stmt`, which ends the statement
+                                            after the cast (`int(x) + 1;` and `int[8](x);` are fine).
+set_trailing_comma           `for int i in {1, 2,} { }`, `a[{1, 2,}]`  the only list flavour that refuses
+                                            the trailing comma (its end token is `]`, not `}`).
+gphase_trailing_comma        `gphase(x,);`  the argument of gphase is parsed as ONE expression, so `(x,)`
+                                            becomes a TUPLE_EXPR (no diagnostic; `U(x,) q;` is fine).
+
+Valid OpenQASM 3 that is left out because the front end does not claim it (neither ungrammar nor
+grammar): `measure q -> c;` (no arrow form), `ctrl @ gphase(a) q;` (GPhaseCallExpr has no operand
+list), compound operators `~=` and `**=`, ranges with omitted bounds (`a[:2]`, `a[1:]`; RangeExpr has
+mandatory start and stop), annotations/comments between the number and the unit of a timing literal
+are never written (blanks only, as in the official lexer).  Not generated either: `OPENQASM 3;` header,
+defcal/cal/extern/box, anonymous scopes, empty statements, old-style register parameters, array
+reference parameters.
 
 Self-check:  python3 gen_ref.py <seed> <n>   (env OQ3_RUN overrides the harness binary).
 """
@@ -521,13 +541,17 @@ class _Gen:
         r = self.r.random()
         if r < 0.5:
             e = ["call", self.ch(FUNCS), [self.expr(2) for _ in range(self.ch([0, 1, 2]))]]
-        elif r < 0.8:
+        elif r < 0.7:
             e = ["pre", "-", self.nonbin(1)]
-        else:
+        elif r < 0.85:
             e = ["bin", self.ch(["+", "*", "<", "=="]), ["pre", "-", self.atom()], self.simple()]
+        elif r < 0.92:
+            e = ["cast", self.cast_type(), self.simple()]
+        else:
+            e = ["bin", self.ch(BINOPS), ["cast", self.cast_type(), self.simple()], self.simple()]
         e = self.ready(e)
-        while e[0] == "paren":          # a statement does not start with `(` here
-            e = e[1]
+        while _leftmost(e)[0] == "paren":          # a statement does not start with `(` here
+            e = _replace_leftmost(e, _leftmost(e)[1])
         return self.E("exprstmt", "EXPR_STMT(%s)" % cst_kind_of(e), {"expr": e})
 
     def s_return(self):
@@ -796,6 +820,14 @@ def _open_if_tail(e):
     return False
 
 
+def _replace_leftmost(e, new):
+    if e[0] == "bin":
+        return ["bin", e[1], _replace_leftmost(e[2], new), e[3]]
+    if e[0] == "index":
+        return ["index", _replace_leftmost(e[1], new), e[2]]
+    return new
+
+
 def _leftmost(e):
     """the sub-expression whose first lexeme is the first lexeme of `e`"""
     while True:
@@ -829,8 +861,11 @@ def _num_cls(t):
 class _Printer:
     """appends the lexemes of statements to `self.out`; records lexeme index ranges in the entries"""
 
-    def __init__(self):
+    def __init__(self, rnd=None, p_trail=0.0):
         self.out = []
+        self.rnd = rnd
+        self.p_trail = p_trail
+        self.stack = []
 
     def w(self, text, nosp=False):            # word: keyword / identifier / type name
         self.out.append(_lx("word", text, nosp))
@@ -862,11 +897,17 @@ class _Printer:
         else:
             self.out.append(_lx(_num_cls(text), text))
 
-    def seq(self, xs, f):
+    def seq(self, xs, f, kind=None):
+        """comma-separated list; `kind` names the list flavour: with probability `p_trail` a trailing
+        comma is written (every list of the official grammar admits one) and recorded in the entry of
+        the innermost enclosing statement as entry["trailing_commas"] = [kind...]"""
         for i, x in enumerate(xs):
             if i:
                 self.pn(",", True)
             f(x)
+        if kind and xs and self.rnd is not None and self.rnd.random() < self.p_trail:
+            self.pn(",", True)
+            self.stack[-1].setdefault("trailing_commas", []).append(kind)
 
     def parens(self, f, nosp=True):
         self.pn("(", nosp)
@@ -940,10 +981,10 @@ class _Printer:
             self.parens(lambda: self.expr(e[1]), nosp=False)
         elif k == "call":
             self.w(e[1])
-            self.parens(lambda: self.seq(e[2], self.expr))
+            self.parens(lambda: self.seq(e[2], self.expr, "args"))
         elif k == "index":
             self.expr(e[1])
-            self.bracks(lambda: self.seq(e[2], self.item))
+            self.bracks(lambda: self.seq(e[2], self.item, None if e[2][0][0] == "set" else "index"))
         elif k == "cast":
             self.type_(e[1])
             self.parens(lambda: self.expr(e[2]))
@@ -953,7 +994,7 @@ class _Printer:
         elif k in ("set", "arraylit"):
             self.pn("{")
             i = len(self.out)
-            self.seq(e[1], self.expr)
+            self.seq(e[1], self.expr, k)
             self.tight(i)
             self.pn("}", True)
         elif k == "range":
@@ -979,6 +1020,7 @@ class _Printer:
 
     def stmt(self, s):
         s["_lo"] = len(self.out)
+        self.stack.append(s)
         t, a = s["_t"], s["ast"]
         if t == "decl":
             if a["const"]:
@@ -1022,8 +1064,9 @@ class _Printer:
                 self.pn("@")
             self.w(a["name"])
             if a["args"] is not None:
-                self.parens(lambda: self.seq(a["args"], self.expr))
-            self.seq(a["qubits"], self.expr)
+                self.parens(lambda: self.seq(a["args"], self.expr,
+                                             "gphase_args" if a["name"] == "gphase" else "args"))
+            self.seq(a["qubits"], self.expr, "qubits")
             self.semi()
         elif t == "measure":
             self.w("measure")
@@ -1031,12 +1074,12 @@ class _Printer:
             self.semi()
         elif t in ("reset", "barrier"):
             self.w(t)
-            self.seq(a["operands"], self.expr)
+            self.seq(a["operands"], self.expr, "qubits" if t == "barrier" else None)
             self.semi()
         elif t == "delay":
             self.w("delay")
             self.bracks(lambda: self.expr(a["duration"]))
-            self.seq(a["operands"], self.expr)
+            self.seq(a["operands"], self.expr, "qubits")
             self.semi()
         elif t == "exprstmt":
             self.expr(a["expr"])
@@ -1083,7 +1126,7 @@ class _Printer:
             self.pn("{")
             for c in a["cases"]:
                 self.w("case")
-                self.seq(c["values"], self.expr)
+                self.seq(c["values"], self.expr, "case")
                 self.block(c["body"])
             if a["default"] is not None:
                 self.w("default")
@@ -1093,8 +1136,8 @@ class _Printer:
             self.w("gate")
             self.w(a["name"])
             if a["params"] is not None:
-                self.parens(lambda: self.seq(a["params"], self.w))
-            self.seq(a["qubits"], self.w)
+                self.parens(lambda: self.seq(a["params"], self.w, "gate_params"))
+            self.seq(a["qubits"], self.w, "gate_qubits")
             self.block(a["body"])
         elif t == "def":
             self.w("def")
@@ -1103,13 +1146,14 @@ class _Printer:
             def one(p):
                 self.type_(p["type"])
                 self.w(p["name"])
-            self.parens(lambda: self.seq(a["params"], one))
+            self.parens(lambda: self.seq(a["params"], one, "def_params"))
             if a["ret"] is not None:
                 self.pn("->")
                 self.type_(a["ret"])
             self.block(a["body"])
         else:
             raise ValueError(t)
+        self.stack.pop()
         s["_hi"] = len(self.out)
 
 
@@ -1190,8 +1234,8 @@ def _entries(xs):
                 yield from _entries(a["default"])
 
 
-def _finish(rnd, stmts, mode, inject=False):
-    pr = _Printer()
+def _finish(rnd, stmts, mode, inject=False, p_trail=0.0):
+    pr = _Printer(rnd, p_trail)
     for s in stmts:
         pr.stmt(s)
     lex = pr.out
@@ -1214,7 +1258,7 @@ def _finish(rnd, stmts, mode, inject=False):
     return text
 
 
-def gen_ref_programs(seed, n, depth=4, layout="mixed", invalid_rate=0.0, p_red=0.05):
+def gen_ref_programs(seed, n, depth=4, layout="mixed", invalid_rate=0.0, p_red=0.05, p_trail=0.02):
     assert layout in ("random", "plain", "mixed")
     out = []
     for i in range(n):
@@ -1223,7 +1267,7 @@ def gen_ref_programs(seed, n, depth=4, layout="mixed", invalid_rate=0.0, p_red=0
         stmts = g.program()
         mode = layout if layout != "mixed" else ("plain" if rnd.random() < 0.3 else "random")
         bad = rnd.random() < invalid_rate
-        text = _finish(rnd, stmts, mode, inject=bad)
+        text = _finish(rnd, stmts, mode, inject=bad, p_trail=p_trail)
         out.append({"text": text, "stmts": stmts, "valid": not bad})
     return out
 
@@ -1623,6 +1667,8 @@ def _diff(exp, got, path, out, limit=6):
         return
     if isinstance(exp, dict) and isinstance(got, dict):
         for key in exp:
+            if key == "trailing_commas":
+                continue
             if key not in got:
                 out.append("%s: missing %s" % (path, key))
             else:
@@ -1813,7 +1859,9 @@ def c_let_stmt(case):
         if e["kind"] == "ALIAS_DECLARATION_STATEMENT" and not item_mode:
             return True
         if e["kind"].startswith("EXPR_STMT") or e["kind"] in NON_ITEM_KINDS:
-            item_mode = False
+            x = e["ast"].get("expr")
+            if not (x is not None and x[0] == "cast" and x[1][2] is not None):
+                item_mode = False      # (`int[8](x);` is handled by `opt_item`, like a declaration)
     top = set(id(e) for e in case["stmts"])
     return any(e["kind"] == "ALIAS_DECLARATION_STATEMENT" and id(e) not in top for e in _all_entries(case))
 
@@ -1843,6 +1891,24 @@ def c_return_cast(case):
     return False
 
 
+def c_sized_cast_stmt(case):
+    for e in _all_entries(case):
+        x = e["ast"].get("expr") if e["kind"].startswith("EXPR_STMT") else None
+        if x is not None and x[0] != "cast":
+            l = _leftmost(x)
+            if l[0] == "cast" and l[1][2] is not None:
+                return True
+    return False
+
+
+def c_set_trailing_comma(case):
+    return any("set" in e.get("trailing_commas", ()) for e in _all_entries(case))
+
+
+def c_gphase_trailing_comma(case):
+    return any("gphase_args" in e.get("trailing_commas", ()) for e in _all_entries(case))
+
+
 KNOWN_CAUSES = {
     "F06_assign_binary_rhs": c_f06,
     "F08_pow_power_assoc": lambda c: "F08_pow_power_assoc" in _bin_pair_causes(c),
@@ -1857,6 +1923,9 @@ KNOWN_CAUSES = {
     "gate_empty_param_parens": c_gate_empty_parens,
     "annotation_single_stmt_body": c_annotated_single_body,
     "return_cast_value": c_return_cast,
+    "stmt_starts_with_sized_cast": c_sized_cast_stmt,
+    "set_trailing_comma": c_set_trailing_comma,
+    "gphase_trailing_comma": c_gphase_trailing_comma,
 }
 
 
